@@ -190,7 +190,9 @@ shrink = text_shrinker(replay, 'text')
 
 
 
-INDENTS = st.one_of(st.sampled_from([' ', '  ', '\t', ' \t', '        ', '']), st.text(alphabet=' \t', max_size=6))
+INDENTS = st.one_of(st.sampled_from([' ', '  ', '\t', ' \t', '        ', '']), st.text(alphabet=' \t', max_size=6),
+                    # long strings (nothing bounds the length of an indentation string)
+                    st.text(alphabet=' \t', min_size=9, max_size=40))
 
 
 def deep_program(depth, pattern):
